@@ -327,23 +327,23 @@ def table(tier="quick"):
         exempt={"#1": "permutation indices"})
     # the plain mask multipliers (family FMaskMul: the mask is used as passed in; see known_findings.d/C18.json mask_multiplier_*):
     # every mask dtype class, all four data dtypes, both tenalg backends, the one-matrix / 1-D shortcuts
-    import os
-    # VERIF_C18_MASKMUL_CAST=1: compare against the skeleton of the candidate repair (mask cast into the context of the factors) - used to validate
-    # build/fix_candidates/C18_mask_multiplier.diff on a patched worktree; after the repair this becomes the default
-    MM = "FMaskMulCast" if os.environ.get("VERIF_C18_MASKMUL_CAST") else "FMaskMul"
+    # the skeleton variant of the plain mask multipliers is SELECTED FROM THE SOURCE of this tree: an entry point that re-binds `mask` to
+    # tl.tensor(mask, **tl.context(...)) before using it (the candidate repair build/fix_candidates/C18_mask_multiplier.diff) is compared with
+    # FMaskMulCast, one that uses the mask as passed in with FMaskMul (the code at adc0083; known finding mask_multiplier_*)
+    MMV = mask_multiplier_variants(C.REPO)
     for mk in ("same", "bool", "int", "f64", "f32"):
         add("cp_to_tensor_mask" + ("" if mk == "same" else "_" + mk), "tensorly.cp_tensor.cp_to_tensor",
             lambda d, mk=mk: (lambda i=cpinit(d), m=d.mask(SH, mk): (cpt.cp_to_tensor(i, mask=m), cpt.cp_to_tensor((i[0], i[1][:1]), mask=m[:, 0, 0]), cpt.cp_to_tensor((None, i[1]), mask=m))),
-            fam=MM, mask=mk, dts=ALL3, slotmap={"#0": "out0", "#1": "out0", "#2": "out0"})
+            fam=MMV["cp_to_tensor"], mask=mk, dts=ALL3, slotmap={"#0": "out0", "#1": "out0", "#2": "out0"})
         add("khatri_rao_mask_" + mk, "tensorly.tenalg.khatri_rao",
             lambda d, mk=mk: (lambda i=cpinit(d), m=d.mask(SH, mk): (tenalg.khatri_rao(i[1], mask=m), tenalg.khatri_rao(i[1][:1], mask=m[:, 0, 0]), tenalg.khatri_rao(i[1], weights=i[0], skip_matrix=1, mask=m[:, 0, :]),
                                                                      _einsum(lambda: tenalg.khatri_rao(i[1], mask=m)))),
-            fam=MM, mask=mk, dts=ALL3, slotmap={"#0": "out0", "#1": "out0", "#2": "out0", "#3": "out0"})
+            fam=MMV["khatri_rao"], mask=mk, dts=ALL3, slotmap={"#0": "out0", "#1": "out0", "#2": "out0", "#3": "out0"})
         add("cp_lstsq_grad_mask_" + mk, "tensorly.cp_tensor.cp_lstsq_grad",
             lambda d, mk=mk: (lambda i=cpinit(d), X=d.arr(*SH), m=d.mask(SH, mk): cpt.cp_lstsq_grad(CPTensor(i), X, return_loss=True, mask=m)),
-            fam=MM, opts=dict(alt=True), mask=mk, dts=ALL3)
+            fam=MMV["cp_lstsq_grad"], opts=dict(alt=True), mask=mk, dts=ALL3)
     add("cp_lstsq_grad_nomask", "tensorly.cp_tensor.cp_lstsq_grad",
-        lambda d: (lambda i=cpinit(d), X=d.arr(*SH): cpt.cp_lstsq_grad(CPTensor(i), X, return_loss=True)), fam=MM, opts=dict(alt=True), dts=ALL3)
+        lambda d: (lambda i=cpinit(d), X=d.arr(*SH): cpt.cp_lstsq_grad(CPTensor(i), X, return_loss=True)), fam=MMV["cp_lstsq_grad"], opts=dict(alt=True), dts=ALL3)
     add("cp_to_unfolded_vec", "tensorly.cp_tensor.cp_to_vec", lambda d: (lambda i=cpinit(d): (cpt.cp_to_vec(i), cpt.cp_to_unfolded(i, 1))), fam="FPure", dts=ALL3)
     add("cp_mode_dot", "tensorly.cp_tensor.cp_mode_dot", lambda d: (lambda i=cpinit(d), Mx=d.arr(2, 3): cpt.cp_mode_dot(CPTensor(i), Mx, 1, copy=True)), fam="FPure", dts=ALL3)
     add("cp_norm", "tensorly.cp_tensor.cp_norm", lambda d: (lambda i=cpinit(d): cpt.cp_norm(i)), fam="FPure", dts=ALL3, real={""})
@@ -519,6 +519,39 @@ PROX_CALLS = {
     "svt": lambda P, v, par, k: P.svd_thresholding(v, par), "procrustes": lambda P, v, par, k: P.procrustes(v)}
 
 
+_MMV_CACHE = {}
+
+
+def mask_multiplier_variants(repo):
+    """{'cp_to_tensor' | 'khatri_rao' | 'cp_lstsq_grad': 'FMaskMul' | 'FMaskMulCast'} read from the source of `repo`: FMaskMulCast iff every
+    implementation of the entry point assigns `mask` from an allocation-with-context of the mask itself (tl.tensor(mask, **tl.context(x)))"""
+    import os
+    if os.environ.get("VERIF_C18_MASKMUL_CAST"):
+        return {k: "FMaskMulCast" for k in ("cp_to_tensor", "khatri_rao", "cp_lstsq_grad")}
+    if repo in _MMV_CACHE:
+        return _MMV_CACHE[repo]
+    quals = {"cp_to_tensor": ["tensorly.cp_tensor.cp_to_tensor"], "cp_lstsq_grad": ["tensorly.cp_tensor.cp_lstsq_grad"],
+             "khatri_rao": ["tensorly.tenalg.core_tenalg._khatri_rao.khatri_rao", "tensorly.tenalg.einsum_tenalg._khatri_rao.khatri_rao"]}
+    nodes = dict(extract_functions(repo))
+    out = {}
+    for k, qs in quals.items():
+        casts = []
+        for q in qs:
+            fn = nodes.get(q)
+            ok = False
+            for st in (ast.walk(fn) if fn is not None else []):
+                if isinstance(st, ast.Assign) and len(st.targets) == 1 and isinstance(st.targets[0], ast.Name) and st.targets[0].id == "mask" \
+                        and isinstance(st.value, ast.Call) and isinstance(st.value.func, ast.Attribute) and st.value.func.attr == "tensor" \
+                        and st.value.args and isinstance(st.value.args[0], ast.Name) and st.value.args[0].id == "mask" \
+                        and any(kw.arg is None and isinstance(kw.value, ast.Call) and isinstance(kw.value.func, ast.Attribute) and kw.value.func.attr == "context"
+                                for kw in st.value.keywords):
+                    ok = True
+            casts.append(ok)
+        out[k] = "FMaskMulCast" if casts and all(casts) else "FMaskMul"
+    _MMV_CACHE[repo] = out
+    return out
+
+
 def random_rows(rng, n):
     """option-lattice sampling: random combinations of initialisation x mask dtype x normalisation x line search x sparsity x
     l2 x orthogonalise x errors x constraint kind x shape/order for the entry points with transcribed skeletons (the
@@ -568,7 +601,7 @@ def random_rows(rng, n):
                 return (lambda: _einsum(f)) if ein else f
             add(f"rnd{i}_{which}_mask_{mkm}_{'x'.join(map(str, shm))}_r{rank}_w{int(not now)}_e{int(ein)}",
                 {"cp_to_tensor": "tensorly.cp_tensor.cp_to_tensor", "khatri_rao": "tensorly.tenalg.khatri_rao", "cp_lstsq_grad": "tensorly.cp_tensor.cp_lstsq_grad"}[which],
-                build, "FMaskMul", dict(alt=(which == "cp_lstsq_grad")), mkm, [dtm], slotmap={"": "out0"})
+                build, mask_multiplier_variants(C.REPO)[which], dict(alt=(which == "cp_lstsq_grad")), mkm, [dtm], slotmap={"": "out0"})
         elif kind == "parafac":
             ls = rng.random() < 0.4
             sp = rng.random() < 0.25
@@ -1204,14 +1237,18 @@ class Translator:
         if isinstance(n, ast.Subscript):
             sl = n.slice
             parts = sl.elts if isinstance(sl, ast.Tuple) else [sl]
+            if isinstance(n.value, ast.Call) and self.call_name(n.value) == "stack" and n.value.args and isinstance(n.value.args[0], (ast.List, ast.Tuple)) \
+                    and n.value.args[0].elts and all(self.node_is_array(x) for x in n.value.args[0].elts) and len(parts) == 1:
+                return True          # one index into a stack of arrays is still an array
             return self.node_is_array(n.value) and any(isinstance(x, ast.Slice) for x in parts)
         if isinstance(n, ast.Call):
             d = self.dotted(n.func)
             A = d[-1] if d else None
             if d and len(d) > 1 and d[-2] in RNG_NAMES:
                 return False
-            if A in ALLOC or A in ("tensor", "array", "asarray", "zeros_like", "ones_like", "empty_like", "full_like", "concatenate", "stack", "arange"):
-                return True
+            if A in ALLOC or A in ("tensor", "array", "asarray", "zeros_like", "ones_like", "empty_like", "full_like", "concatenate", "stack", "arange") \
+                    or (A == "copy" and d and d[0] in MODULES):
+                return True          # (np.copy returns an ndarray even for a scalar argument)
             if A in ("copy", "sqrt", "abs", "exp", "log", "sign", "clip", "transpose", "reshape", "conj", "flip", "sort", "cumsum", "index_update", "astype") and (n.args or isinstance(n.func, ast.Attribute)):
                 base = n.args[0] if (n.args and (d is None or d[0] in MODULES)) else (n.func.value if isinstance(n.func, ast.Attribute) else None)
                 return base is not None and self.node_is_array(base)
@@ -1411,6 +1448,8 @@ class Translator:
             else:
                 new = ("div", cur, e) if isinstance(s.op, ast.Div) else ("op", cur, e)
             self.assign(s.target, new)
+            if isinstance(s.target, ast.Name) and s.target.id not in self.arrayvars and self.node_is_array(s.value):
+                self.arrayvars.add(s.target.id)      # scalar op= ndarray re-binds the name to an ndarray
             return
         if isinstance(s, ast.Return):
             if s.value is None:
@@ -1822,8 +1861,8 @@ TR_TEMPLATES = [
     "{v} = tl.concatenate([{a}, {b}])[:3]", "{v} = tl.stack([{a}, {b}])[0]", "{v} = tl.sign({a}) * tl.clip(tl.abs({a}) - 0.1, a_min=0)",
     "{v} = {a}.astype({b}.dtype)", "{v} = tl.tensor(np.random.RandomState(0).random_sample(3), **tl.context({a}))", "{v} = tl.tensor(np.random.RandomState(0).random_sample(3))",
     "{v} = tl.cumsum({a}, axis=0) / tl.tensor(tl.arange(3) + 1, **tl.context({b}))", "{v} = tl.cumsum({a}, axis=0) / (tl.arange(3) + 1)",
-    "{v} = tl.copy({a})\n    {v} *= {b}", "{v} = tl.copy({a})\n    {v} /= np.float64(2.0)", "{v} = tl.sqrt(tl.abs({a}) / 3)\n    {v} += mask", "{v} = tl.sum({a})\n    {v} += tl.sum({b})",
-    "{v} = tl.zeros((3,), **tl.context({a}))\n    {v} += tl.ones(3)", "{v} = 0.0\n    {v} += {a}", "{v} = tl.norm({a})\n    {v} *= np.float64(2.0)", "{v} = {a}[0:3]\n    {v} -= {b} * np.float64(0.5)",
+    "{v} = tl.copy({a})\n    {v} *= {b}", "{v} = tl.copy({a})\n    {v} /= np.float64(2.0)", "{v} = tl.sqrt(tl.abs({a}) / 3) + tl.zeros((3,), **tl.context(X))\n    {v} += mask", "{v} = tl.sum({a})\n    {v} += tl.sum({b})",
+    "{v} = tl.zeros((3,), **tl.context({a}))\n    {v} += tl.ones(3)", "{v} = 0.0\n    {v} += {a}", "{v} = tl.norm({a})\n    {v} *= np.float64(2.0)", "{v} = tl.copy({a})[0:3]\n    {v} -= {b} * np.float64(0.5)",
     "{v} = {a} * tl.sqrt(2.0)", "{v} = {a} + tl.exp(1) * {b}",
     "{v} = tl.transpose(tl.reshape({a}, (3, 1)))[0] + {b}", "{v} = tl.max({a}) * {b}", "{v} = tl.sort({a}, axis=0) + tl.flip({b}, axis=0)",
 ]
@@ -2263,7 +2302,11 @@ def run(chk):
                        "(d) every library function with an array-valued return (about 190: decomposition/, tenalg/, solvers/, regression/, metrics/, random/, *_tensor.py, backend/core.py, "
                        "contrib/decomposition) is translated from its source (ast) into a dtype program and checked inside Coq for 4 contexts x 6 mask dtypes (level 2) or 4 contexts (level 1); "
                        "(e) translator self-test: 20 (quick) / 150 (thorough) random straight-line functions over 50 statement templates, each executed with {float32,float64} data x "
-                       "{bool,int64,float32,float64} masks and compared exactly with the dtypes its translation evaluates to inside Coq")
+                       "{bool,int64,float32,float64} masks and compared exactly with the dtypes its translation evaluates to inside Coq; "
+                       "(f) complex64 / complex128 input for every row whose entry point accepts complex data (rows written for complex data + the COMPLEX_ALSO rows); "
+                       "(g) exact-dtype tie: for every function with outputs recorded as exactly-the-data's-dtype in the baseline, the regenerated program is re-checked inside Coq "
+                       "(ext_exact_any / ext_exact_same) and cross-checked against this run's complex-data executions of the certified entry points; "
+                       "(h) the plain mask multipliers with every mask kind, the skeleton variant (mask as passed / cast) selected from the source of the checked tree")
     # ---- 3b. self-test of the ast translator against real executions (random straight-line functions)
     tcases, tmeta = translator_selftest_cases(random.Random(f"C18-tr-{chk.seed}"), 20 if chk.tier == "quick" else 150)
     tfailing, t_eval, tbroken = C.run_case_shards("C18", HEADER, "case", tcases, shard=300, tag="trself")
